@@ -76,19 +76,7 @@ func (h *harness) knownReplays() {
 			fmt.Sprintf("file `k: v`, SetValues{k:\"\"} (delete): the file afterwards is %q, k reads %q", string(nb), after["k"]))
 		h.rep.Count("known-replay")
 	}
-	// the defaults as the implementation has them (for the "file gone" clause of the histories)
-	{
-		dir, _ := h.newDir()
-		ce := newCfg(dir)
-		ce.c.ApplyDefault()
-		h.defaults = map[string]string{}
-		for _, k := range ce.c.GetKeys() {
-			h.defaults[k] = ce.c.GetValue(k)
-			h.defaultKeys = append(h.defaultKeys, k)
-		}
-		sort.Strings(h.defaultKeys)
-		ce.c.Destroy()
-	}
+	h.computeDefaults()
 	// the file disappears: the map goes back to the defaults — are the observers told?
 	{
 		dir, path := h.newDir()
@@ -125,3 +113,18 @@ func (h *harness) knownReplays() {
 }
 
 var _ = conffile.NewDefaultFileParser
+
+// computeDefaults takes ApplyDefault's table from the implementation (for the "file gone" clause).
+func (h *harness) computeDefaults() {
+	dir, _ := h.newDir()
+	ce := newCfg(dir)
+	ce.c.ApplyDefault()
+	h.defaults = map[string]string{}
+	h.defaultKeys = nil
+	for _, k := range ce.c.GetKeys() {
+		h.defaults[k] = ce.c.GetValue(k)
+		h.defaultKeys = append(h.defaultKeys, k)
+	}
+	sort.Strings(h.defaultKeys)
+	ce.c.Destroy()
+}
